@@ -96,3 +96,13 @@ chk("C01", "exploration",
     "rustc 1.95 defines valid Rust. Options documented as not compiling alone and C++ features documented as unsupported are excluded (DESIGN §4).",
     "runtime monitoring: generate-and-compile oracle over seeded header/option/edition space",
     "DESIGN.md §4 C01")
+
+chk("C07", "exploration",
+    "Invariant at a hook: after each of bindgen's fix-point analyses converges, a clone is iterated round-robin over all nodes ignoring "
+    "the dependency map; nodes that still change are not at the fixed point, and every later look-up of such an (analysis, item) pair "
+    "by another analysis or by code generation is reported. Driven by all repository headers, generated C type graphs and generated "
+    "C++ declaration graphs; the graphs are additionally rendered in every valid top-level order (forward declarations hoisted or "
+    "sunk) and per-type inventories (derives, generics, fields, repr, impls, assertion numbers) must agree across orders.",
+    "Sound for rules that only update the constrained node's own entry (true for all seven analyses). Work-list permutation is only an amplifier, never a verdict.",
+    "runtime monitoring: in-process invariant hook (reference fix-point + consultation probes) and metamorphic declaration re-ordering",
+    "DESIGN.md §4 C07")
